@@ -66,11 +66,16 @@ def run(ctx):
                 pmode = 'none'
             pres = [int(v) for v in rng.choice(ids, size=int(rng.integers(0, min(5, len(ids)) + 1)), replace=False)] if pmode == 'list' else \
                 ([int(v) for v in cn.node_id.values] if pmode == 'connectors' else [])
-            arg = None if pmode == 'none' else (pres if pmode == 'list' else 'connectors')
-            p = dict(factor=str(factor), preserve=pmode, preserve_nodes=pres)
+            spelling = str(rng.choice(['list', 'ndarray', 'set'])) if pmode == 'list' else pmode
+            arg = None if pmode == 'none' else ({'list': list, 'ndarray': np.array, 'set': set}[spelling](pres) if pmode == 'list' else 'connectors')
+            route = 'method' if rng.random() < 0.3 else 'function'
+            p = dict(factor=str(factor), preserve=pmode, preserve_nodes=pres, spelling=spelling, route=route)
             desc.update(params=p)
             inplace = bool(rng.integers(2))
-            st, res = guarded(navis.downsample_neuron, x, factor, preserve_nodes=arg, inplace=inplace)
+            if route == 'method':
+                st, res = guarded(x.downsample, factor, preserve_nodes=arg, inplace=inplace)
+            else:
+                st, res = guarded(navis.downsample_neuron, x, factor, preserve_nodes=arg, inplace=inplace)
             if st == 'ok' and inplace:
                 res = x
             pres_m = sorted(set(pres + ([soma] if soma is not None else [])))
@@ -94,11 +99,38 @@ def run(ctx):
             if use_units:
                 res_val = float('%.6f' % res_val)
             p = dict(resample_to=arg)
+            # table dtypes users really have: integer voxel coordinates (neuPrint), int32 ids close to the top of their range
+            dvar = str(rng.choice(['float', 'float', 'float', 'intxyz', 'int32ids']))
+            if dvar == 'intxyz' and all(float(v) == int(v) for row in f['xyz'] for v in row):
+                for c_ in 'xyz':
+                    x.nodes[c_] = x.nodes[c_].astype(np.int64)
+            elif dvar == 'int32ids' and max(ids) < 2 ** 31 - 1 and cn is None and not tagmap and soma is None:
+                top = 2 ** 31 - 1 - max(ids)
+                x.nodes['node_id'] = (x.nodes['node_id'].values + top).astype(np.int32)
+                x.nodes['parent_id'] = np.where(x.nodes['parent_id'].values >= 0, x.nodes['parent_id'].values + top, -1).astype(np.int32)
+                x._clear_temp_attr()
+                f = dict(f, ids=[i + top for i in ids], parents=[q + top if q >= 0 else -1 for q in f['parents']])
+                ids = f['ids']
+                desc['forest'] = f
+                segs = [[int(v) for v in s_] for s_ in x.small_segments]
+                pos = {int(i): np.array(c, dtype=float) for i, c in zip(ids, f['xyz'])}
+                seglen = [float(sum(np.linalg.norm(pos[a] - pos[b]) for a, b in zip(s_[:-1], s_[1:]))) for s_ in segs]
+            else:
+                dvar = 'float'
+            p['dtypes'] = dvar
+            # mapped columns: a numerical one (interpolated like the radius) and a label (nearest original node along the cable)
+            mapped = rng.random() < 0.4
+            if mapped:
+                x.nodes['val'] = rng.integers(0, 20, size=len(x.nodes)).astype(float)
+                x.nodes['label'] = rng.choice(['axon', 'dendrite', 'bouton', 'soma'], size=len(x.nodes)).astype(object)
+                p['map_columns'] = ['val', 'label']
             desc.update(params=p)
             inplace = bool(rng.integers(2))
+            extra = dict(val={int(i): float(v) for i, v in zip(x.nodes.node_id.values, x.nodes.val.values)},
+                         label={int(i): str(v) for i, v in zip(x.nodes.node_id.values, x.nodes.label.values)}) if mapped else None
             snap = dict(conn=None if cn is None else [(int(c), int(n)) for c, n in zip(cn.connector_id.values, cn.node_id.values)],
-                        tags=tagmap, soma=soma, radius={int(i): float(r) for i, r in zip(ids, radius)})
-            st, res = guarded(navis.resample_skeleton, x, arg, inplace=inplace)
+                        tags=tagmap, soma=soma, radius={int(i): float(r) for i, r in zip(ids, radius)}, extra=extra)
+            st, res = guarded(navis.resample_skeleton, x, arg, inplace=inplace, **(dict(map_columns=['val', 'label']) if mapped else {}))
             if st == 'ok' and inplace:
                 res = x
             jobs.append(dict(desc=desc, nt=nt, key=(str(ids), str(f['xyz']), kind, str(p)),
@@ -148,6 +180,15 @@ def _cmp_res(st, res, f, segs, seglen, res_val, pos, snap):
         nsamp = [int(v) for v in r[0]]
         ids = set(f['ids'])
         nd = res.nodes
+        if (nd.node_id.values < 0).any() or nd.node_id.duplicated().any() or (nd.parent_id.values < -1).any():
+            ctx.violation('resampled skeleton has negative or duplicate node ids', desc,
+                          dict(ids=[int(v) for v in nd.node_id.values[:12]], parents=[int(v) for v in nd.parent_id.values[:12]], dtype=str(nd.node_id.dtype)))
+            return
+        if snap.get('extra') is not None and not {'val', 'label'} <= set(nd.columns):
+            ctx.violation('mapped columns are missing from the resampled node table', desc, dict(columns=list(nd.columns)))
+            return
+        nval = {int(i): float(v) for i, v in zip(nd.node_id.values, nd.val.values)} if snap.get('extra') is not None else {}
+        nlab = {int(i): str(v) for i, v in zip(nd.node_id.values, nd.label.values)} if snap.get('extra') is not None else {}
         npos = {int(i): np.array([a, b, c], dtype=float) for i, a, b, c in zip(nd.node_id.values, nd.x.values, nd.y.values, nd.z.values)}
         npar = {int(i): int(p) for i, p in zip(nd.node_id.values, nd.parent_id.values)}
         nrad = {int(i): float(v) for i, v in zip(nd.node_id.values, nd.radius.values)} if 'radius' in nd.columns else {}
@@ -193,6 +234,19 @@ def _cmp_res(st, res, f, segs, seglen, res_val, pos, snap):
                     if abs(nrad[i] - wr) > 1e-6 * max(1, abs(wr)):
                         ctx.violation('radius is not interpolated along the cable', desc, dict(segment=s, index=j, got=nrad[i], expected=wr))
                         return
+                    if nval:
+                        vals = np.array([snap['extra']['val'][i_] for i_ in s])
+                        wv = float(vals[0]) if j == 0 else float(np.interp(d, cum, vals))
+                        if abs(nval[i] - wv) > 1e-6 * max(1, abs(wv)):
+                            ctx.violation('mapped numerical column is not interpolated along the cable', desc, dict(segment=s, index=j, got=nval[i], expected=wv))
+                            return
+                        # label of the nearest original node along the cable (either neighbour on an exact tie)
+                        gap = np.abs(cum - d)
+                        near = set(snap['extra']['label'][s[q]] for q in range(len(s)) if gap[q] <= gap.min() + 1e-9 * max(1.0, cum[-1]))
+                        if nlab[i] not in near:
+                            ctx.violation('mapped label column does not carry the label of the nearest original node', desc,
+                                          dict(segment=s, index=j, got=nlab[i], expected=sorted(near)))
+                            return
             used.update(chain)
         if set(npos) - used:
             ctx.violation('resampled skeleton has nodes that belong to no original segment', desc, dict(extra=sorted(set(npos) - used)[:10]))
